@@ -16,6 +16,7 @@ type PathEl struct {
 	field int   // >=0: struct field; -1: array element idx; -2: sub-array view [idx, idx+n)
 	idx   *Term // element index (64-bit) when field < 0
 	n     int   // view length for field == -2
+	typ   types.Type // field == -3: typed little-endian view of a byte array starting at byte idx
 }
 
 // Ptr points into a heap object. obj == 0 is nil.
@@ -211,6 +212,9 @@ func sameShapePath(x, y []PathEl) bool {
 	}
 	for i := range x {
 		if x[i].field != y[i].field || x[i].n != y[i].n {
+			return false
+		}
+		if x[i].field == -3 && !types.Identical(x[i].typ, y[i].typ) {
 			return false
 		}
 	}
